@@ -676,10 +676,12 @@ func (vc *FnVC) loadIn(st *State, a *Addr) string {
 }
 
 func (vc *FnVC) store(a *Addr, v string) {
-	if a.kind != aLocal && a.T != nil {
+	if a.kind != aLocal && a.T != nil && a.fieldInv != "nullable" {
 		if f := vc.regimeFacts(v, a.T, 0); f != "true" {
 			vc.assert("elem-invariant", "stored Element is non-nil", f)
 		}
+	} else if a.fieldInv == "nullable" && isRegimeIface(a.T) {
+		vc.assert("elem-invariant", "stored Element is nil or a non-nil pointer", sOr(sEq(sx("if.tag", v), "0"), vc.regimeFacts(v, a.T, 0)))
 	}
 	switch a.kind {
 	case aObj:
@@ -709,7 +711,7 @@ func (vc *FnVC) store(a *Addr, v string) {
 		if a.kind == aField && a.ownerT != nil {
 			vc.touchObj(a.ref, a.ownerT)
 		}
-		if a.kind == aField && a.fieldInv != "" && len(a.path) == 0 {
+		if a.kind == aField && a.fieldInv == "nonnil" && len(a.path) == 0 {
 			// objects allocated by this function may be initialised in several steps; they are checked at return
 			vc.assert("field-invariant", a.key+" stays non-nil", sOr(sx(">", a.ref, vc.entryAlloc), nonNilTerm(v, vc.sorts.sortOf(a.T))))
 		}
@@ -933,7 +935,7 @@ func (vc *FnVC) checkFreshObjs(ret *ssa.BasicBlock) {
 		}
 		st := fo.stT.Underlying().(*types.Struct)
 		for i := 0; i < st.NumFields(); i++ {
-			if vc.fieldInvOf(fo.stT, i) == "" {
+			if vc.fieldInvOf(fo.stT, i) != "nonnil" {
 				continue
 			}
 			key, fs, _ := vc.fieldKey(fo.stT, i)
@@ -944,6 +946,9 @@ func (vc *FnVC) checkFreshObjs(ret *ssa.BasicBlock) {
 
 // immutableKey: syntax-tree storage is immutable for every function outside the packages that build the tree.
 func (vc *FnVC) immutableKey(k string) bool {
+	if ft := vc.eng.frozenTypeOfKey(k); ft != "" {
+		return !vc.eng.allocatesType(vc.fn, ft)
+	}
 	root := vc.fn
 	for root.Parent() != nil {
 		root = root.Parent()
@@ -953,6 +958,9 @@ func (vc *FnVC) immutableKey(k string) bool {
 		case "syntax", "zh":
 			return false
 		}
+	}
+	if ft := vc.eng.frozenTypeOfKey(k); ft != "" {
+		return !vc.eng.allocatesType(vc.fn, ft)
 	}
 	return vc.eng.immutableHeapKey(k)
 }
@@ -1002,6 +1010,9 @@ func (vc *FnVC) fieldOwner(v ssa.Value) (string, types.Type, bool) {
 }
 
 func (vc *FnVC) checkTouched() {
+	if vc.con != nil && vc.con.Helper {
+		return
+	}
 	for _, t := range vc.invTouched {
 		c, n := vc.typeInvFor(t.T)
 		if c == nil {
